@@ -303,6 +303,7 @@ func buildField(ww *conversionVisitor, node sourcewalk.FieldNode) (*descriptorpb
 					},
 				},
 			}
+			ww.file.ensureImport(bufValidateImport)
 			proto.SetExtension(desc.Options, validate.E_Field, rules)
 		}
 
@@ -330,6 +331,7 @@ func buildField(ww *conversionVisitor, node sourcewalk.FieldNode) (*descriptorpb
 					},
 				},
 			}
+			ww.file.ensureImport(bufValidateImport)
 			proto.SetExtension(desc.Options, validate.E_Field, rules)
 		}
 
@@ -582,6 +584,7 @@ func buildField(ww *conversionVisitor, node sourcewalk.FieldNode) (*descriptorpb
 				return nil, fmt.Errorf("rules: unknown integer format %v", st.Integer.Format)
 			}
 
+			ww.file.ensureImport(bufValidateImport)
 			proto.SetExtension(desc.Options, validate.E_Field, rules)
 		}
 
@@ -726,6 +729,7 @@ func buildField(ww *conversionVisitor, node sourcewalk.FieldNode) (*descriptorpb
 					},
 				},
 			}
+			ww.file.ensureImport(bufValidateImport)
 			proto.SetExtension(desc.Options, validate.E_Field, rules)
 		}
 
@@ -758,6 +762,7 @@ func buildField(ww *conversionVisitor, node sourcewalk.FieldNode) (*descriptorpb
 					// None Implemented.
 				},
 			}
+			ww.file.ensureImport(bufValidateImport)
 			proto.SetExtension(desc.Options, validate.E_Field, rules)
 		}
 
